@@ -5,8 +5,9 @@ import fw
 from fw import cz, cnat, clist, ctuple, cbool, copt
 
 KINDS = {"value": "KValue", "key": "KKeyErr", "zero": "KZero", "type": "KType",
-         "none": "KNone", "deep": "KDeep", "name": "KName"}
-RAISE_SRC = {"value": 'int("q")', "key": "{}[0]", "zero": "(1 // 0)", "type": "(None + 1)", "name": "undefined_name_q"}
+         "none": "KNone", "deep": "KDeep", "name": "KName", "base": "KBase"}
+RAISE_SRC = {"value": 'int("q")', "key": "{}[0]", "zero": "(1 // 0)", "type": "(None + 1)", "name": "undefined_name_q",
+             "base": "(_ for _ in ()).throw(KeyboardInterrupt)"}
 BINOPS = {"add": ("+", "Add"), "sub": ("-", "Sub"), "mul": ("*", "Mul"), "fdiv": ("//", "FloorDiv")}
 
 
@@ -192,6 +193,12 @@ def tie(tag, cases, results):
     return fw.run_coq_cases(tag, REQUIRES, CASE_TYPE, "check_case %s" % cnat(FUEL), terms, shard=40)
 
 
+def hypotheses(tag, cases, results):
+    """indices of cases that do NOT satisfy the hypotheses of the Exec theorems (defs_ok, refn_ok, op_ok2, no re-entry)"""
+    terms = [ccase(c, r) for c, r in zip(cases, results)]
+    return fw.run_coq_cases(tag + "hyp", REQUIRES, CASE_TYPE, "hyp_case %s" % cnat(FUEL), terms, shard=40)
+
+
 def explain(tag, case, result):
     cells, refs = cworld(case["world"])
     st = "(init %s %s %s)" % (cells, refs, cnat(case["world"]["maxdepth"]))
@@ -222,6 +229,7 @@ class Gen:
         self.maxdepth = kw.get("maxdepth", (6, 40))
         self.recursion = kw.get("recursion", 0.3)
         self.try_calls = kw.get("try_calls", True)   # False: D20 trigger avoided (caught failures of callees)
+        self.p_derived = kw.get("p_derived", 0.0)    # cells realised as derived copies of a base space's cells
 
     def val(self):
         return self.rng.randint(-3, 6)
@@ -261,7 +269,7 @@ class Gen:
                 return ["refn", rr["rid"]]
             return ["refa", rr["rid"]]
         if x < self.p_call + self.p_ref + self.p_raise:
-            return ["raise", r.choice(["value", "key", "zero", "zero", "type"])]
+            return ["raise", r.choice(["value", "key", "zero", "zero", "type", "base"])]
         if x < 0.9:
             return ["bin", r.choice(["add", "add", "sub", "mul", "fdiv"]),
                     self.expr(w, me, depth - 1, nloc, callees), self.expr(w, me, depth - 1, nloc, callees)]
@@ -304,12 +312,19 @@ class Gen:
         for c in range(nc):
             np_ = r.choice([0, 1, 1, 1, 2])
             nd = r.randint(0, np_) if r.random() < 0.4 else 0
+            der = r.random() < self.p_derived
             w["cells"].append({"cid": c, "space": r.randrange(nsp), "nparams": np_,
                                "defaults": [self.val() for _ in range(nd)],
                                "cached": r.random() >= self.p_uncached,
-                               "allow_none": r.random() < self.p_allow_none, "body": None})
+                               "allow_none": (not der) and r.random() < self.p_allow_none, "body": None,
+                               "derived": der})
         for c in w["cells"]:
             self.celldef(w, c)
+        for c in w["cells"]:
+            if c["derived"]:            # the definition the far base holds from the start
+                far = dict(c)
+                self.celldef(w, far)
+                c["far_body"] = far["body"]
         return w
 
     def key(self, c):
@@ -335,6 +350,7 @@ def gen_ops(g, w, n, weights):
     ops = []
     cached_state = {c["cid"]: c["cached"] for c in w["cells"]}
     cur = {c["cid"]: c for c in w["cells"]}
+    fell_back = set()
     for _ in range(n):
         k = r.choice(kinds)
         c = cur[r.randrange(len(w["cells"]))]
@@ -358,7 +374,18 @@ def gen_ops(g, w, n, weights):
             nc = dict(c)
             g.celldef(w2, nc)
             cur[c["cid"]] = nc
-            ops.append(["setf", c["cid"], nc])
+            how = r.choice(["direct", "fallback"])
+            if nc.get("derived") and how == "fallback" and c["cid"] not in fell_back:
+                nc["body"] = c["far_body"]          # falling back means: the far base's definition takes over
+                cur[c["cid"]] = nc
+                # deleting the near definition re-inherits EVERY derived cells of the space (each is cleared):
+                # redefine the others with their unchanged formulas first, so that this over-clearing is
+                # visible to the model as ordinary formula assignments
+                for d in cur.values():
+                    if d.get("derived") and d["space"] == nc["space"] and d["cid"] != nc["cid"]:
+                        ops.append(["setf", d["cid"], dict(d), "direct"])
+                fell_back.add(c["cid"])
+            ops.append(["setf", c["cid"], nc, how])
         elif k == "setcached":
             b = not cached_state[c["cid"]]
             cached_state[c["cid"]] = b
